@@ -1,5 +1,6 @@
 import Thanos.Model.ShuffleShard
 import Thanos.Lemmas.Hashring
+import Thanos.Lemmas.HashringPerm
 /-
   Helper lemmas for C21: `dedup`, the selection loop of one zone, the LRU cache.
 -/
@@ -172,5 +173,155 @@ theorem Lru.get_take {α : Type} : ∀ (c : Lru α) (n : Nat) (k : String) (v : 
     by_cases hk : ka = k
     · simpa [hk] using h
     · simp only [hk, if_false] at h ⊢; exact Lru.get_take c n k v h
+
+end Thanos.ShuffleShard
+
+namespace Thanos.ShuffleShard
+open Thanos.Hashring
+
+/-! ### the selection commutes with a renaming of the endpoint indices
+
+  (the base ring built from a reordered endpoint list is the renamed base ring — `mkRing_permute` —
+  so the tenant's node set does not depend on the order of the configured endpoints) -/
+
+/-- `f` is injective on the listed indices -/
+def InjOnL (f : Nat → Nat) (d : List Nat) : Prop := ∀ a ∈ d, ∀ b ∈ d, f a = f b → a = b
+
+theorem contains_map_inj {f : Nat → Nat} {d sel : List Nat} (hinj : InjOnL f d) (hs : ∀ a ∈ sel, a ∈ d)
+    {e : Nat} (he : e ∈ d) : (sel.map f).contains (f e) = sel.contains e := by
+  apply Bool.eq_iff_iff.mpr
+  simp only [List.contains_iff_mem, List.mem_map]
+  constructor
+  · rintro ⟨a, ha, hfa⟩
+    have := hinj a (hs a ha) e he hfa
+    rw [← this]; exact ha
+  · intro h; exact ⟨e, h, rfl⟩
+
+theorem searchIdx_ren (f : Nat → Nat) (pos : Nat) (secs : List Sec) :
+    searchIdx pos (secs.map (ren f)) = searchIdx pos secs := by
+  unfold searchIdx
+  have : (secs.map (ren f)).findIdx? (fun s => decide (pos ≤ s.hash)) = secs.findIdx? (fun s => decide (pos ≤ s.hash)) := by
+    rw [List.findIdx?_map]; rfl
+  rw [this]
+
+theorem scanFrom_ren (f : Nat → Nat) (secs : List Sec) (i : Nat) :
+    scanFrom (secs.map (ren f)) i = (scanFrom secs i).map (ren f) := by
+  simp [scanFrom, List.map_drop, List.map_take]
+
+theorem pickOne_ren {f : Nat → Nat} {d : List Nat} (hinj : InjOnL f d) (secs : List Sec) (sel : List Nat) (pos : Nat)
+    (hsecs : ∀ s ∈ secs, s.ep ∈ d) (hsel : ∀ a ∈ sel, a ∈ d) :
+    pickOne (secs.map (ren f)) (sel.map f) pos = (pickOne secs sel pos).map f := by
+  unfold pickOne
+  rw [searchIdx_ren, scanFrom_ren]
+  have hscan : ∀ s ∈ scanFrom secs (searchIdx pos secs), s.ep ∈ d := fun s hs => hsecs s (mem_scanFrom.mp hs)
+  generalize scanFrom secs (searchIdx pos secs) = l at hscan
+  have key : (l.map (ren f)).find? (fun s => !(sel.map f).contains s.ep) =
+      (l.find? (fun s => !sel.contains s.ep)).map (ren f) := by
+    induction l with
+    | nil => rfl
+    | cons a l ih =>
+      have ha : a.ep ∈ d := hscan a (by simp)
+      have ih' := ih (fun s hs => hscan s (by simp [hs]))
+      simp only [List.map_cons, List.find?_cons, ren_ep]
+      rw [contains_map_inj hinj hsel ha]
+      cases hcon : sel.contains a.ep with
+      | true => simp only [Bool.not_true]; exact ih'
+      | false => simp only [Bool.not_false, Option.map_some]
+  rw [key]
+  cases l.find? (fun s => !sel.contains s.ep) with
+  | none => rfl
+  | some s => rfl
+
+theorem pickOne_mem_eps {secs : List Sec} {sel : List Nat} {pos e : Nat} (h : pickOne secs sel pos = some e) :
+    ∃ s ∈ secs, s.ep = e := by
+  unfold pickOne at h
+  cases hf : (scanFrom secs (searchIdx pos secs)).find? (fun s => !sel.contains s.ep) with
+  | none => rw [hf] at h; cases h
+  | some s =>
+    rw [hf] at h
+    simp only [Option.map_some, Option.some.injEq] at h
+    exact ⟨s, mem_scanFrom.mp (List.mem_of_find?_eq_some hf), h⟩
+
+theorem pickZone_ren {f : Nat → Nat} {d : List Nat} (hinj : InjOnL f d) (secs : List Sec)
+    (hsecs : ∀ s ∈ secs, s.ep ∈ d) : ∀ (positions : List Nat) (sel : List Nat), (∀ a ∈ sel, a ∈ d) →
+    pickZone (secs.map (ren f)) positions (sel.map f) = (pickZone secs positions sel).map f
+  | [], _, _ => rfl
+  | pos :: rest, sel, hsel => by
+    simp only [pickZone, pickOne_ren hinj secs sel pos hsecs hsel]
+    cases hp : pickOne secs sel pos with
+    | none => simp only [Option.map_none]; exact pickZone_ren hinj secs hsecs rest sel hsel
+    | some e =>
+      simp only [Option.map_some]
+      obtain ⟨s, hs, rfl⟩ := pickOne_mem_eps hp
+      have := pickZone_ren hinj secs hsecs rest (sel ++ [s.ep]) (by
+        intro a ha
+        rw [List.mem_append] at ha
+        rcases ha with h | h
+        · exact hsel a h
+        · simp at h; subst h; exact hsecs s hs)
+      simpa using this
+
+theorem dedup_map_inj {f : Nat → Nat} {d : List Nat} (hinj : InjOnL f d) : ∀ (l : List Nat), (∀ a ∈ l, a ∈ d) →
+    dedup (l.map f) = (dedup l).map f
+  | [], _ => rfl
+  | a :: l, h => by
+    have ih := dedup_map_inj hinj l (fun b hb => h b (by simp [hb]))
+    have hc : (l.map f).contains (f a) = l.contains a :=
+      contains_map_inj hinj (fun b hb => h b (by simp [hb])) (h a (by simp))
+    simp only [List.map_cons, dedup, hc]
+    cases hl : l.contains a with
+    | true => simp only [if_true]; exact ih
+    | false => simp only [Bool.false_eq_true, if_false, List.map_cons, ih]
+
+theorem zoneNodes_ren {f : Nat → Nat} {d : List Nat} (hinj : InjOnL f d) (secs : List Sec)
+    (hsecs : ∀ s ∈ secs, s.ep ∈ d) : zoneNodes (secs.map (ren f)) = (zoneNodes secs).map f := by
+  unfold zoneNodes
+  have : (secs.map (ren f)).map (·.ep) = (secs.map (·.ep)).map f := by simp [Function.comp_def]
+  rw [this]
+  exact dedup_map_inj hinj _ (by
+    intro a ha
+    obtain ⟨s, hs, rfl⟩ := List.mem_map.mp ha
+    exact hsecs s hs)
+
+def Shard.map (f : Nat → Nat) : Shard → Shard
+  | .nodes eps => .nodes (eps.map f)
+  | .tooBig => .tooBig
+
+theorem selectNodes_ren {f : Nat → Nat} {d : List Nat} (hinj : InjOnL f d) (take : Nat) (secsOf : Nat → List Sec)
+    (positions : Nat → List Nat) (hsecs : ∀ z, ∀ s ∈ secsOf z, s.ep ∈ d) : ∀ (zones : List Nat),
+    selectNodes take (fun z => (secsOf z).map (ren f)) positions zones = (selectNodes take secsOf positions zones).map f
+  | [] => rfl
+  | z :: zs => by
+    have ih := selectNodes_ren hinj take secsOf positions hsecs zs
+    simp only [selectNodes, zoneNodes_ren hinj (secsOf z) (hsecs z), List.length_map, ih]
+    by_cases h : (zoneNodes (secsOf z)).length < take
+    · simp [h, Shard.map]
+    · simp only [h, if_false]
+      cases hr : selectNodes take secsOf positions zs with
+      | tooBig => simp [Shard.map]
+      | nodes rest =>
+        have := pickZone_ren hinj (secsOf z) (hsecs z) ((positions z).take take) [] (by simp)
+        simp only [List.map_nil] at this
+        simp [Shard.map, this]
+
+/-- **the selection of a tenant's nodes commutes with a renaming of the endpoint indices** that is
+    injective on the ring: same tenant, same positions, renamed ring ⇒ renamed node list. -/
+theorem tenantShard_ren (f : Nat → Nat) (zoneAware : Bool) (ring : List Sec) (dflt : Nat) (ovs : List Override)
+    (tenant : String) (positions : Nat → List Nat) (hinj : InjOnL f (ring.map (·.ep))) :
+    tenantShard zoneAware (ring.map (ren f)) dflt ovs tenant positions =
+      (tenantShard zoneAware ring dflt ovs tenant positions).map f := by
+  have haz : (ring.map (ren f)).map (·.az) = ring.map (·.az) := by simp [Function.comp_def]
+  unfold tenantShard
+  cases zoneAware with
+  | true =>
+    simp only [if_true, haz]
+    have hfil : ∀ z, (ring.map (ren f)).filter (fun s => s.az == z) = (ring.filter (fun s => s.az == z)).map (ren f) := by
+      intro z; rw [List.filter_map]; rfl
+    simp only [hfil]
+    exact selectNodes_ren hinj _ (fun z => ring.filter (fun s => s.az == z)) positions
+      (fun z s hs => List.mem_map.mpr ⟨s, (List.mem_filter.mp hs).1, rfl⟩) _
+  | false =>
+    simp only [Bool.false_eq_true, if_false]
+    exact selectNodes_ren hinj _ (fun _ => ring) positions (fun _ s hs => List.mem_map.mpr ⟨s, hs, rfl⟩) [0]
 
 end Thanos.ShuffleShard
